@@ -176,10 +176,9 @@ def overflowing(faults):
 def variants(tier, faults, phase, rng):
     """[(layout name, kwargs)] -- the base layout (same file, k = 0) comes first."""
     out = [("same", dict(k=0, where=1, style="blank"))]
-    n = 0
 
-    def st():
-        return STYLES[(n + len(out)) % len(STYLES)]
+    def st():                       # the line styles rotate over the variants
+        return STYLES[len(out) % len(STYLES)]
     for k in KS[1:]:
         out.append(("same", dict(k=k, where=1, style=st())))
     ks2 = [2, 16384, 70000] if tier == "quick" else KS[1:]
@@ -276,9 +275,6 @@ def trace_eval(cases, cfg, nchunk):
 def prepare_replay(chk, tier, build):
     rng = random.Random(chk.seed)
     fams = families(tier, rng)
-    if tier == "quick":
-        # the seed picks which of the single-fault families get the full set of layouts
-        pass
     cases = []
     famfaults = {}
     for fi, (fkey, faults, phase) in enumerate(fams):
@@ -348,10 +344,12 @@ def evaluate_replay(chk, tier, cases, recs):
         tot = vlib.TlcResult()
         tot.states, tot.distinct, tot.wall = sum(r.states for r in rs), sum(r.distinct for r in rs), max(r.wall for r in rs)
         chk.add_tlc(cfg, tot)
-    for k, v in vreq.items():
+    for k, v in list(vreq.items()):
         if isinstance(k, tuple):
+            # TLC stopped in that chunk: the required design itself is not faithful on a generated case
             chk.violation("required design violates %s at the real widths on a replay case" % v["violated"], v["trace"],
                           key={"model": "TraceSrcPosReq", "inv": v["violated"]})
+            vreq["broken"] = True
     return cases, recs, vreq, vasw
 
 
@@ -364,6 +362,8 @@ def judge(chk, cases, recs, vreq, vasw):
     for c, rec in zip(cases, recs):
         cid = c["id"]
         if cid not in vreq or cid not in vasw:
+            if vreq.get("broken"):
+                continue        # not evaluated: TLC stopped at an invariant violation reported above
             raise vlib.MachineryError("no TLC verdict for case %d (%s)" % (cid, c["label"]))
         vr, va = vreq[cid], vasw[cid]
         faults = c["famkey"]
